@@ -558,7 +558,7 @@ impl Check for C06 {
 
     fn extra_evidence(&self) -> Value {
         let fb: usize = self.frames_q.iter().map(|f| f.bounds.len()).sum();
-        json!({"enumerated_frames_quick": self.frames_q.len(), "enumerated_frames_thorough": self.frames_t.len(), "field_boundaries_in_enumerated_frames_quick": fb,
+        json!({"messages_the_model_peer_cannot_encode": unmodelled_cases(&self.ctx, &self.cases), "enumerated_frames_quick": self.frames_q.len(), "enumerated_frames_thorough": self.frames_t.len(), "field_boundaries_in_enumerated_frames_quick": fb,
                "note_field_boundary_coverage": "every split position 1..n-1 of every enumerated frame is exercised once with a Pending at the split, hence every field boundary is crossed by a split and by a Pending (counter probe_split_and_pending_at_field_boundary)"})
     }
 }
